@@ -124,7 +124,8 @@ class _World:
         if target is not None and isinstance(text, A.Opaque) and text.tag == "generated-text":
             tree = text.payload[0]
             if isinstance(tree, A.Opaque) and tree.tag == "ast":
-                fn = A.Opaque("compiled-function", payload={"text": text, "globals": glb, "namespace": target})
+                fn = A.Opaque("compiled-function", payload={"text": text, "globals": glb, "namespace": target},
+                              attrs={"__name__": tree.attrs["id"], "__qualname__": tree.attrs["id"]})
                 fn.methods["__call__"] = lambda it_, a_, k_, s_, fn=fn: self.compiled_call(fn, a_, k_, s_)
                 target.items[A._key(tree.attrs["id"])] = fn
         return None
@@ -243,6 +244,60 @@ def explore(ctx: Ctx, history, max_runs=200, then_call=None, settle=False):
     return outs
 
 
+def _explore_copy(ctx: Ctx, history, proto):
+    """[(protocol method, function served by the copy)] after the (successful) history.  Follows __reduce__ / __reduce_ex__ returning
+    (callable, args[, state]), __copy__ and __deepcopy__; other protocol methods make the question undecided."""
+    m = ctx.mod(EV)
+    c = m.classes()["ExperimentEvaluator"]
+    out = []
+    for how in proto:
+        if how not in ("__reduce__", "__reduce_ex__", "__copy__", "__deepcopy__"):
+            raise Undecided(f"the evaluator defines {how}, which the analyser does not follow")
+        it = A.Interp(ctx.src, ())
+        w = _World(ctx, it, _gen_signature(ctx))
+        cls = it.class_val(m, c)
+        selfo = A.Obj(cls, {})
+        try:
+            for i, text in enumerate(history):
+                it.call(it.class_attr(cls, "__init__" if i == 0 else "recompile", selfo, ""), [text], {})
+            f = it.class_attr(cls, how, selfo, "")
+            r = it.call(f, [4] if how == "__reduce_ex__" else ([A.ADict({})] if how == "__deepcopy__" else []), {})
+            if how in ("__reduce__", "__reduce_ex__"):
+                if not (isinstance(r, A.AList) and 2 <= len(r.items) <= 3):
+                    raise Undecided(f"{how} returns {r!r}")
+                fn_, args_ = r.items[0], r.items[1]
+                if not isinstance(args_, A.AList):
+                    raise Undecided(f"{how} returns arguments {args_!r}")
+                new = it.apply(fn_, list(args_.items), {}, "")
+                if len(r.items) == 3 and r.items[2] is not None:
+                    st = r.items[2]
+                    if not (isinstance(new, A.Obj) and isinstance(st, A.ADict)):
+                        raise Undecided(f"{how} returns state {st!r}")
+                    try:
+                        it.call(it.class_attr(cls, "__setstate__", new, ""), [st], {})
+                    except A.Unsupported:
+                        for k_, v_ in st.items.items():
+                            new.attrs[it._unkey(k_).text() if isinstance(it._unkey(k_), A.Tmpl) else str(k_)] = v_
+            else:
+                new = r
+            if not isinstance(new, A.Obj):
+                raise Undecided(f"{how} does not produce an evaluator object ({new!r})")
+            w.log.clear()
+            try:
+                it.call(it.class_attr(cls, "__call__", new, ""), [], {})
+                calls = [e for e in w.log if e[0] == "call"]
+                out.append((how, calls[-1][1] if calls else None))
+            except A.RaiseSig as e:
+                out.append((how, ("raise", e.exc_name)))
+        except A.NeedChoice:
+            raise Undecided(f"{how}: undetermined decision")
+        except A.RaiseSig as e:
+            raise Undecided(f"{how} raises {e.exc_name}")
+        except A.Unsupported as e:
+            raise Undecided(str(e))
+    return out
+
+
 def _abs_eq(a, b, depth=0):
     """Structural equality of abstract values (object identity of containers and stand-ins does not matter)."""
     if depth > 6:
@@ -302,6 +357,9 @@ def _exact_fingerprint(v, text):
     import hashlib
     if v is text:
         return True, "the text itself"
+    if isinstance(v, A.Opaque) and v.tag == "object-id":
+        return False, ("id() is the address of the string object, not a function of its characters: once the previous text has been freed a "
+                       "different text can be given the same address")
     if isinstance(v, A.ABytes):
         if v.src is not text:
             return False, "the bytes compared are not those of the whole text"
@@ -332,7 +390,7 @@ def lifecycle(ctx: Ctx):
     if cached is not None:
         return cached
     res = {"undecided": None, "findings": {k: [] for k in ("atomic", "none", "switched", "layout", "fed", "unwrapped", "recorded", "exact", "ordered",
-                                                           "unparsed", "isolated")},
+                                                           "unparsed", "isolated", "copied")},
            "facts": {}}
     T0, T1 = A.Sym("str", "TEXT0"), A.Sym("str", "TEXT1")
     try:
@@ -445,7 +503,8 @@ def lifecycle(ctx: Ctx):
         involved = 0
         for t in cmps:
             for side in (t[1], t[2]):
-                of_new = side is T1 or (isinstance(side, A.ABytes) and side.src is T1) or (isinstance(side, A.ADigest) and any(isinstance(d_, A.ABytes) and d_.src is T1 for d_ in side.data))
+                of_new = side is T1 or (isinstance(side, A.Opaque) and side.tag == "object-id" and side.payload is T1) or (
+                    isinstance(side, A.ABytes) and side.src is T1) or (isinstance(side, A.ADigest) and any(isinstance(d_, A.ABytes) and d_.src is T1 for d_ in side.data))
                 if of_new:
                     involved += 1
                     okx, why = _exact_fingerprint(side, T1)
@@ -525,6 +584,31 @@ def lifecycle(ctx: Ctx):
         res["facts"]["two_evaluators"] = True
     except Undecided:
         pass
+    # a copy / pickle protocol defined by the class: the copy must be an evaluator of the text the original serves NOW
+    try:
+        m_ = ctx.mod(EV)
+        c_ = m_.classes()["ExperimentEvaluator"]
+        proto = [f_.name for f_ in c_.body if isinstance(f_, ast.FunctionDef) and f_.name in (
+            "__reduce__", "__reduce_ex__", "__copy__", "__deepcopy__", "__getstate__", "__setstate__", "__getnewargs__", "__getnewargs_ex__")]
+        res["facts"]["copy_protocol"] = proto
+        if proto:
+            cp = _explore_copy(ctx, [T0, T1], proto)
+            want_text = T1
+            for how, served in cp:
+                ok_ = isinstance(served, A.Opaque) and served.tag == "compiled-function" and \
+                    isinstance(served.payload["text"].payload[0], A.Opaque) and served.payload["text"].payload[0].payload is want_text
+                if not ok_:
+                    def _d3(x):
+                        if isinstance(x, A.Opaque) and x.tag == "compiled-function":
+                            t_ = x.payload["text"].payload[0]
+                            return f"the function compiled from {A._describe(t_.payload) if isinstance(t_, A.Opaque) else t_!r}"
+                        return "no compiled function" if x is None else f"{x!r}"
+                    F["copied"].append((f"{how}[copy after recompile]", f"an evaluator built from TEXT0 and recompiled to TEXT1, when copied "
+                                        f"or pickled through its {how}, gives an evaluator that runs {_d3(served)}: the copy does not "
+                                        "behave like the evaluator it was made from (nor like a fresh evaluator of the last accepted text)"))
+    except Undecided as e:
+        raise_later = str(e)
+        res["facts"]["copy_protocol_undecided"] = raise_later
     for label, rs in (("after a successful recompile", again), ("after construction", first)):
         for r in rs:
             steps = [t for t in r["trace"] if t[0] == "step"]
@@ -605,6 +689,24 @@ def call_semantics(ctx: Ctx):
         if stores or changed:
             F["result"].append(("__call__[state]", f"a call changes the evaluator (self.{(stores[0][2] if stores else changed[0])}): "
                                 "a later call can be answered from what an earlier one left behind"))
+        # the evaluator only hands the fields on.  Converting one to text (str/repr/format, an f-string) is an operation of its own:
+        # it runs for every field, also for ones the experiment never reads, and it can fail where forwarding cannot (repr of an
+        # int beyond the digit limit, a value whose __repr__ raises)
+        def _holds_field(x, depth=0):
+            if any(x is f_ for f_ in fields.values()):
+                return True
+            if depth < 3 and isinstance(x, (A.AList, A.ASet)):
+                return any(_holds_field(y, depth + 1) for y in x.items)
+            if depth < 3 and isinstance(x, A.ADict):
+                return any(_holds_field(y, depth + 1) for y in x.items.values())
+            return False
+        for t in r["trace"]:
+            if t[0] == "render" and _holds_field(t[1]):
+                F["args"].append(("__call__[field converted to text]", f"the call converts the caller's fields to text ({t[2]}() at {t[3]}) "
+                                  "before/besides handing them on: the conversion is applied to every field, also to ones the experiment "
+                                  "does not read, and raises where forwarding does not (an int beyond the 4300-digit limit, a __repr__ "
+                                  "that fails)"))
+                break
         if len(calls) != 1:
             F["result"].append(("__call__[compiled function]", f"a call invokes the compiled function {len(calls)} times"))
             continue
